@@ -145,6 +145,93 @@ func TestC03(t *testing.T) {
 				failRapid(rt, r, caseOf("C03", "siblings", b, err), err)
 			}
 		})
+		// 3b. member counts round every power of two and round decimal size (per-reader chunks,
+		// size hints and growth steps have thresholds there), flat and two levels deep
+		if e.enumStage("sizes", "arrays and objects with n members for n in 0..40 and 2^k-1, 2^k, 2^k+1 up to 4097, 1000, 10000: flat scalars, n small arrays, n small objects, and a small-big-small sibling pattern", true) {
+			var ns []int
+			for n := 0; n <= 40; n++ {
+				ns = append(ns, n)
+			}
+			for k := 6; k <= 12; k++ {
+				ns = append(ns, 1<<uint(k)-1, 1<<uint(k), 1<<uint(k)+1)
+			}
+			ns = append(ns, 100, 1000, 10000)
+			var sb strings.Builder
+			idx := 0
+		sizes:
+			for _, n := range ns {
+				for variant := 0; variant < 6; variant++ {
+					idx++
+					if !e.cfg.Mine(idx) {
+						continue
+					}
+					sb.Reset()
+					switch variant {
+					case 0: // flat array of numbers
+						sb.WriteByte('[')
+						for i := 0; i < n; i++ {
+							if i > 0 {
+								sb.WriteByte(',')
+							}
+							fmt.Fprintf(&sb, "%d", i)
+						}
+						sb.WriteByte(']')
+					case 1: // flat object
+						sb.WriteByte('{')
+						for i := 0; i < n; i++ {
+							if i > 0 {
+								sb.WriteByte(',')
+							}
+							fmt.Fprintf(&sb, `"k%d":"v%d"`, i, i)
+						}
+						sb.WriteByte('}')
+					case 2: // n small arrays
+						sb.WriteByte('[')
+						for i := 0; i < n; i++ {
+							if i > 0 {
+								sb.WriteByte(',')
+							}
+							fmt.Fprintf(&sb, `[%d,"x\t%d"]`, i, i)
+						}
+						sb.WriteByte(']')
+					case 3: // n small objects with an escaped key
+						sb.WriteByte('[')
+						for i := 0; i < n; i++ {
+							if i > 0 {
+								sb.WriteByte(',')
+							}
+							fmt.Fprintf(&sb, `{"a\n":%d,"b":[%d]}`, i, i)
+						}
+						sb.WriteByte(']')
+					case 4: // small, big (n), small siblings in an object
+						sb.WriteString(`{"s":[1],"big":[`)
+						for i := 0; i < n; i++ {
+							if i > 0 {
+								sb.WriteByte(',')
+							}
+							sb.WriteString("null")
+						}
+						sb.WriteString(`],"t":[2,3],"u":{"big":{`)
+						for i := 0; i < n; i++ {
+							if i > 0 {
+								sb.WriteByte(',')
+							}
+							fmt.Fprintf(&sb, `"%d":true`, i)
+						}
+						sb.WriteString(`},"v":{}}}`)
+					default: // a string of n bytes with an escape at the end, in an array
+						sb.WriteString(`["`)
+						for i := 0; i < n; i++ {
+							sb.WriteByte(byte('a' + i%26))
+						}
+						sb.WriteString(`\u00e9",1]`)
+					}
+					if !run("sizes", []byte(sb.String())) {
+						break sizes
+					}
+				}
+			}
+		}
 		// 4. shared byte-level generators (exactly-when direction, depth limit)
 		e.feed(feedOpts{shortlexQ: 3, shortlexT: 5, sweepQ: 200, sweepT: 12000, sweepMaxLen: 72, nestQ: 40, nestT: 800,
 			nestDepths: []int{1, 2, 3, 5, 64, 9999, 10000, 10001, 10002}, depthSitesLite: true, nextByte: true, alignment: true}, eval)
